@@ -1163,7 +1163,8 @@ def _apply_rolling(
 
     if values_are_times:
         if operation == "diff":
-            result = result.view("m8[ns]")
+            # a difference of times is in the unit of the input
+            result = result.view(f"m8[{np.datetime_data(orig_dtype)[0]}]")
         else:
             result = result.view(orig_dtype)
 
@@ -1590,7 +1591,10 @@ def _rolling_shift_or_diff_1d(
                 if want_shift:
                     out[i] = group_buffers[key, pos]
                 else:
-                    out[i] = val - group_buffers[key, pos]
+                    prev = group_buffers[key, pos]
+                    # a null (NaT is an int64 sentinel here) on either side gives a null
+                    if not (is_null(val) or is_null(prev)):
+                        out[i] = val - prev
             else:
                 group_counts[key] += 1
 
